@@ -212,7 +212,7 @@ impl<T: GeoFloat> CentroidOperation<T> {
         ensures rank(r) == rank_of(op_view(*self)) || (op_view(*self) is Some && rank(r) == op_view(*self)->Some_0.rank),
                 op_view(*self) is None ==> r == Dimensions::Empty,
                 op_view(*self) is Some ==> rank(r) == op_view(*self)->Some_0.rank,
-//@closure 1 `|weighted_centroid| weighted_centroid.dimensions` | weighted_centroid: &WeightedCentroid<T> | d: Dimensions
+//@closure 1 `|weighted_centroid|` | weighted_centroid: &WeightedCentroid<T> | d: Dimensions
             ensures d == weighted_centroid.dimensions
 //@end
 //@fn geo/src/algorithm/centroid.rs | impl<T: GeoFloat> CentroidOperation<T> | add_weighted_centroid | id=C06.V.op_add_weighted_centroid
